@@ -150,7 +150,7 @@ func c05Compose(p []kv) string {
 }
 
 func checkC05(c *ev.Ctx) {
-	c.Rule("encoder: complete product 2^4 flags x touch{-1..4} x usage{0,1,2} x ver{0,1,2,65535} x 6 principal lists x jointly varied 5-value string alphabet; decoder: single-field surgeries (delete, 3 case renames, duplicate before/after, retype to null/number/string/array/object/bool-flip) and double surgeries (one field deleted/renamed AND another duplicated or an unknown key added) on every field of a generating set of encoder outputs, all flag/touch/ver combinations as texts, a JSON value catalogue, every ordered pair (and triples) of a 17-text set decoded back to back (history independence), byte-substitution neighbourhood of an encoder output, and ALL strings up to length 5 (thorough 6) over a 13-symbol structural alphabet. non-trivial = Marshal succeeded (round-trip checked) or Unmarshal accepted (oracle checked); distinct by text")
+	c.Rule("encoder: complete product 2^4 flags x touch{-1..4} x usage{0,1,2} x ver{0,1,2,65535} x 6 principal lists x jointly varied 5-value string alphabet, plus 6 literal-escape / control-character strings in each string field of the generating set; decoder: single-field surgeries (delete, 3 case renames, duplicate before/after, retype to null/number/string/array/object/bool-flip) and double surgeries (one field deleted/renamed AND another duplicated or an unknown key added) on every field of a generating set of encoder outputs, all flag/touch/ver combinations as texts, a JSON value catalogue, every ordered pair (and triples) of a 17-text set decoded back to back (history independence), byte-substitution neighbourhood of an encoder output, and ALL strings up to length 5 (thorough 6) over a 13-symbol structural alphabet. non-trivial = Marshal succeeded (round-trip checked) or Unmarshal accepted (oracle checked); distinct by text")
 	c.Assume("valid UTF-8 strings only (encoding/json replaces invalid UTF-8, which the property excludes)", "the independent decode uses encoding/json into map[string]RawMessage")
 	if c.ReplayCase != nil {
 		var k c05Case
@@ -196,6 +196,31 @@ func checkC05(c *ev.Ctx) {
 						}
 					}
 				}
+			}
+		}
+	}
+	// second encoder pass: literal escape texts (what a JSON/HTML encoder emits, as characters of the value) and the characters
+	// they stand for, in every string field and as a principal, over the consistent attribute combinations
+	escStrs := []string{"a\\u0026b\\u003c\\u003e", "\\\\u0026\\\\\\u003c", "&lt;&gt;&amp;&#34;", "\\n\\\"\\\\\\/\\ud83d", "\u2028\u2029\ufffd", "\x00\x01\x1f\n\r\t\x7f"}
+	for _, g := range generating {
+		for _, s := range escStrs {
+			for f := 0; f < 5; f++ {
+				k := g
+				k.Principals = []string{"a"}
+				switch f {
+				case 0:
+					k.Principals = []string{s, "b"}
+				case 1:
+					k.TransID = s
+				case 2:
+					k.ReqUser = s
+				case 3:
+					k.ReqIP = s
+				case 4:
+					k.ReqHost = s
+				}
+				c05Enc(c, k)
+				n++
 			}
 		}
 	}
